@@ -428,6 +428,7 @@ def r_assignment_program(ctx):
                 raise AnalysisError("post-solve assignment: more than 64 paths through numeric tests")
             env, pts, exs, comp = model()
             it = _Interp(env, negative)
+            it.home = (repo, fn._module, "PEP")
             it.choices = choices
             try:
                 it.run(fn.body)
@@ -531,6 +532,7 @@ def r_expression_eval_program(ctx):
         env = {params_of(fn)[0]: me, "Expression": ("type", "Expression"), "Point": ("type", "Point"), "tuple": ("type", "tuple"),
                "int": ("type", "int"), "float": ("type", "float"), "Point.counter": 2, "Expression.counter": 2}
         it = IndexInterp(env, on_call=on_call, check_asserts=True)
+        it.home = (repo, fn._module, "Expression")
         it.on_compare = on_compare
         msg = None
         try:
